@@ -26,7 +26,7 @@ static bytes gOut;                       // bytes that reached the output stream
 static std::vector<ToyMode *> gModes;
 static std::vector<std::string> gIntervals, gLoads, gAsserts;
 static std::string gLastObs;
-static std::vector<int> gWorkerBusy, gIoBusy, gHanded, gLoaded, gWorkerExited;
+static std::vector<int> gWorkerBusy, gIoBusy, gHanded, gLoaded, gWorkerExited; static int gDataLoads = 0;
 static long gExports = 0;
 
 static ssize_t ck_write(void *, const char *buf, size_t n) { gOut.insert(gOut.end(), buf, buf + n); return (ssize_t)n; }
@@ -83,6 +83,8 @@ extern "C" void wencry_verif_point(int kind, int id) {
         gIoBusy[id] = 0;
         const iobuffer *b = g->verif_buf(id);
         gHanded[id] = 0; gLoaded[id] = (int)b->verif_total();
+        // every chunk goes to the worker that owns its position: the c-th data-carrying load fills buffer c mod T
+        if (b->verif_total() > 0) { if (id != gDataLoads % gT) gAsserts.push_back("chunk " + S(gDataLoads) + " was loaded into buffer " + S(id) + " (worker " + S(id) + "), its position is owned by worker " + S(gDataLoads % gT)); gDataLoads++; }
         std::string l = b->verif_isfinal() && b->verif_total() > 0 && gLoads.size() == (size_t)std::count_if(gLoads.begin(), gLoads.end(), [](const std::string &x) { return x[0] == 'f'; }) ? "F" : (b->verif_total() == 0 ? "n" : "f");
         gLoads.push_back(l + ":" + hex(b->verif_data(), 16 * (size_t)b->verif_total()));
         break; }
@@ -125,6 +127,8 @@ static void flush_result(const std::string &status) {
   size_t off = 0; while (off < out.size()) { ssize_t w = write(gResultFd, out.data() + off, out.size() - off); if (w <= 0) break; off += w; }
 }
 
+// the run does not finish (endless loop): report what the monitor has seen so far, then die (a second alarm kills a handler that gets stuck)
+static void on_alarm(int) { signal(SIGALRM, SIG_DFL); alarm(2); flush_result("ALARM"); _exit(3); }
 static void child_run(int T, bool pad, const bytes &input, uint64_t sseed, int strategy, int fd) {
   gT = T; gPad = pad; gResultFd = fd;
   gWorkerBusy.assign(T, 0); gIoBusy.assign(T, 0); gHanded.assign(T, 0); gLoaded.assign(T, 0); gWorkerExited.assign(T, 0);
@@ -154,9 +158,9 @@ static void child_run(int T, bool pad, const bytes &input, uint64_t sseed, int s
   flush_result(status);
 }
 
-static long g_sched = 0, g_intervals = 0, g_failed = 0, g_spurious = 0;
+static long g_sched = 0, g_intervals = 0, g_failed = 0, g_failed_cfg = 0, g_spurious = 0;
 static void run_schedule(int T, bool pad, const bytes &input, uint64_t sseed, int strategy) {
-  if (g_failed >= 6) return;     // enough concrete failing schedules: stop exploring
+  if (g_failed >= 30 || g_failed_cfg >= 2) return;     // enough concrete failing schedules (per configuration / in total): stop exploring
   g_sched++;
   std::string id = "T=" + S(T) + " B=" + S(BSZ) + " pad=" + S(pad) + " input=" + hex(input) + " schedule-seed=" + S((long)sseed) + " strategy=" + S(strategy);
   gReq = id;
@@ -165,7 +169,7 @@ static void run_schedule(int T, bool pad, const bytes &input, uint64_t sseed, in
   int p[2]; if (pipe(p) != 0) abort();
   fflush(g_proto);
   pid_t pid = fork();
-  if (pid == 0) { close(p[0]); signal(SIGALRM, SIG_DFL); alarm(4); child_run(T, pad, input, sseed, strategy, p[1]); _exit(0); }
+  if (pid == 0) { close(p[0]); gResultFd = p[1]; signal(SIGALRM, on_alarm); alarm(4); child_run(T, pad, input, sseed, strategy, p[1]); _exit(0); }
   close(p[1]);
   std::string res; char buf[65536]; ssize_t n; while ((n = read(p[0], buf, sizeof buf)) > 0) res.append(buf, n);
   close(p[0]); int st; waitpid(pid, &st, 0);
@@ -178,14 +182,14 @@ static void run_schedule(int T, bool pad, const bytes &input, uint64_t sseed, in
     else if (ln.compare(0, 2, "N\t") == 0) sscanf(ln.c_str() + 2, "%ld\t%ld\t%ld", &nint, &nexp, &nspur);
     else if (ln.compare(0, 2, "O\t") == 0) outhex = ln.substr(2); }
   g_intervals += nint; g_spurious += nspur;
-  if (status.compare(0, 4, "DONE") != 0 || !WIFEXITED(st)) g_failed++;
+  if (status.compare(0, 4, "DONE") != 0 || !WIFEXITED(st)) { g_failed++; g_failed_cfg++; }
   if (status.compare(0, 8, "DEADLOCK") == 0) { emitA("sched", "C04", "deadlock: no runnable thread while some thread has not returned (" + status + ") " + id); }
-  else if (WIFSIGNALED(st) && WTERMSIG(st) == SIGALRM) { emitA("sched", "C04", "the pipeline did not finish (endless loop) " + id); return; }
+  else if ((WIFSIGNALED(st) && WTERMSIG(st) == SIGALRM) || status.compare(0, 5, "ALARM") == 0) { emitA("sched", "C04", "the pipeline did not finish (endless loop) " + id); return; }
   else if (!WIFEXITED(st) || WEXITSTATUS(st) != 0 || status.compare(0, 4, "DONE") != 0) { emitA("sched", "C11", "the pipeline crashed under the scheduler (wait status " + S(st) + ") " + id); return; }
   if (status.compare(0, 4, "DONE") == 0) {
     if (status != "DONE live=0") emitA("sched", "C15", "live buffer counter not back to 0 after the run: " + status + " " + id);
     bytes want = reference(T, pad, input);
-    if (hex(want) != outhex) g_failed++;
+    if (hex(want) != outhex) { g_failed++; g_failed_cfg++; }
     if (hex(want) != outhex) emitA("sched", "C03", "output differs from the sequential reference under this schedule: got " + outhex + " want " + hex(want) + " " + id);
   }
   if (!pipeReq.empty()) {
@@ -200,10 +204,11 @@ int main(int argc, char **argv) {
   Rng rng((uint64_t)seed * 104729 + BSZ);
   (void)argc; (void)argv;
   size_t chunk = 16 * (size_t)BSZ;
-  std::vector<size_t> lens = {0, 5, 16, chunk - 1, chunk, chunk + 1, 2 * chunk, 2 * chunk + 7, 3 * chunk - 16, 3 * chunk, 5 * chunk + 3};
+  std::vector<size_t> lens = {2 * chunk + 7, 0, 5 * chunk + 3, 5, 16, chunk - 1, chunk, chunk + 1, 2 * chunk, 3 * chunk - 16, 3 * chunk};   // a multi-chunk input first
   int per = tier_thorough() ? 40 : 5;
   for (int T : {1, 2, 3, 4}) for (size_t n : lens) for (int pad = 0; pad < 2; pad++) {
     if (!tier_thorough() && T == 4 && n % 2) continue;
+    g_failed_cfg = 0;
     bytes in = rng.padlike(n);
     if (!pad) { in.resize(n / 16 * 16 + (rng.below(4) == 0 ? rng.below(16) : 0)); if (in.size() >= 16 && rng.below(3)) in[in.size() / 16 * 16 - 1] = (unsigned char)(1 + rng.below(16)); }
     for (int k = 0; k < per; k++) run_schedule(T, pad, in, rng.next() % 1000000007ull, k % 2);
